@@ -212,6 +212,12 @@ static inline ZParams zparams(Ctx &c, const ZFileOpts &o = ZFileOpts()) {
                for (size_t i = 0; i < head && i < n; i++) b[i] = (uint8_t)(1 + r.below(255)); for (size_t i = 0; i < tail && i < n; i++) b[n - 1 - i] = (uint8_t)(1 + r.below(255)); }
         q.chunks[idx] = b; if (q.level > 3) q.level = 3;
     }
+    // a dictionary larger than the library's 32 KiB block buffers (the dictionary is chunk 0 and is read, copied and extracted by its own code paths)
+    if (c.gver >= 4 && o.big_rate && o.allow_dict && c.rarely(o.big_rate)) {
+        size_t n = c.boolean() ? 32766 + c.draw(4) : 33000 + c.draw(o.big_huge ? 110000 : 40000); q.dict.resize(n); uint64_t seed = c.draw(0xffff);
+        if (c.boolean()) fill_random(q.dict.data(), n, seed); else { pbt::Rng r(seed); for (auto &x : q.dict) x = (uint8_t)(r.next() % 23); }
+        if (q.level > 3) q.level = 3;
+    }
     return q;
 }
 static inline ZFile zfile(Ctx &c, const ZFileOpts &o = ZFileOpts()) { return zfile_build(c, zparams(c, o)); }
